@@ -113,8 +113,12 @@ class SV(float):
         o.lo, o.hi = lo, hi
         return o
 
+    __array_ufunc__ = None  # numpy must not coerce this float subclass; arrays are mapped elementwise below
+
     # -- arithmetic --
     def _bin(self, o, f, rev=False):
+        if _is_ndarray(o):
+            return _map_array(o, lambda e: self._bin(e, f, rev))
         if isinstance(o, (CV, complex)) and not isinstance(o, SV):
             c = CV(self, 0)
             return f(o, c) if rev else f(c, o)
@@ -339,6 +343,20 @@ def _is_int(a):
     return z3.is_expr(a) and a.sort() == z3.IntSort()
 
 
+def _is_ndarray(o):
+    return type(o).__module__ == "numpy" and type(o).__name__ == "ndarray"
+
+
+def _map_array(arr, f):
+    import numpy as np
+
+    out = np.empty(arr.shape, dtype=object)
+    for idx in np.ndindex(arr.shape):
+        e = arr[idx]
+        out[idx] = f(e.item() if isinstance(e, np.generic) else e)
+    return out
+
+
 def _to_real(a):
     return z3.ToReal(a) if _is_int(a) else a
 
@@ -368,6 +386,8 @@ class CV(complex):
     def imag(self):
         return self.im
 
+    __array_ufunc__ = None
+
     @staticmethod
     def lift(o):
         if isinstance(o, CV):
@@ -389,6 +409,8 @@ class CV(complex):
         return None
 
     def __add__(self, o):
+        if _is_ndarray(o):
+            return _map_array(o, lambda e: self + e)
         o = CV.lift(o)
         if o is None:
             return NotImplemented
@@ -397,18 +419,24 @@ class CV(complex):
     __radd__ = __add__
 
     def __sub__(self, o):
+        if _is_ndarray(o):
+            return _map_array(o, lambda e: self - e)
         o = CV.lift(o)
         if o is None:
             return NotImplemented
         return CV(_s(self.re, o.re), _s(self.im, o.im))
 
     def __rsub__(self, o):
+        if _is_ndarray(o):
+            return _map_array(o, lambda e: e - self)
         o = CV.lift(o)
         if o is None:
             return NotImplemented
         return o - self
 
     def __mul__(self, o):
+        if _is_ndarray(o):
+            return _map_array(o, lambda e: self * e)
         o = CV.lift(o)
         if o is None:
             return NotImplemented
@@ -417,6 +445,8 @@ class CV(complex):
     __rmul__ = __mul__
 
     def __truediv__(self, o):
+        if _is_ndarray(o):
+            return _map_array(o, lambda e: self / e)
         o = CV.lift(o)
         if o is None:
             return NotImplemented
@@ -425,6 +455,8 @@ class CV(complex):
         return CV(_d(num.re, den), _d(num.im, den))
 
     def __rtruediv__(self, o):
+        if _is_ndarray(o):
+            return _map_array(o, lambda e: e / self)
         o = CV.lift(o)
         if o is None:
             return NotImplemented
